@@ -145,3 +145,7 @@ Section Reach.
     - now left.
   Qed.
 End Reach.
+
+(* Conversion hint: unfold the definitions built on top of [reach_within] before unrolling
+   the fuelled fixpoint (otherwise the kernel unrolls it on partially concrete fuel). *)
+Strategy 100 [reach_within reach_set].
